@@ -309,7 +309,7 @@ fn sync_to_completion(w: &mut World, writer: &mut AsyncWriter<SimAsyncSink>, wak
 /// `sync()` on an idle writer: `Ok(())`, zero sink calls, sink unchanged.
 fn idle_sync(w: &mut World, writer: &mut AsyncWriter<SimAsyncSink>, waker: &std::task::Waker, at: &str, after_reject: bool) -> Result<(), Violation> {
     let mut cx = Context::from_waker(waker);
-    let calls_before = w.core.borrow().write_calls;
+    let calls_before = w.core.borrow().nonempty_offers;
     w.obs.borrow_mut().event(ev::ISSUE, 3);
     w.obs.borrow_mut().probe(if after_reject { pb::reject_then_idle_sync } else { pb::idle_sync });
     let mut fut = Box::pin(writer.sync());
@@ -317,9 +317,9 @@ fn idle_sync(w: &mut World, writer: &mut AsyncWriter<SimAsyncSink>, waker: &std:
     let p = fut.as_mut().poll(&mut cx);
     drop(fut);
     let clause = if after_reject { "s_reject_silent" } else { "s_idle_sync_silent" };
-    let calls = w.core.borrow().write_calls - calls_before;
+    let calls = w.core.borrow().nonempty_offers - calls_before;
     if calls != 0 {
-        fail!(clause, "{at}: sync on an idle writer made {calls} write call(s) to the sink");
+        fail!(clause, "{at}: sync on an idle writer offered bytes to the sink {calls} time(s)");
     }
     match p {
         Poll::Ready(Ok(())) => {}
@@ -359,7 +359,8 @@ impl C16 {
             }
         }
         let n = self.items.len() as u64;
-        let budget = self.sink.len() as u64 + self.caller.len() as u64 + 8 * (n + 1) + 32 + 2 * n;
+        // implementation-agnostic: even a writer that offered one byte per poll would stay below this
+        let budget = self.sink.len() as u64 + self.caller.len() as u64 + 10 * (n + 1) + 64 + 2 * off as u64;
         let budget = budget + 2 * self.flush_lane.len() as u64;
         let core = SinkCore::new(self.sink.clone(), None, budget, obs.clone());
         core.borrow_mut().layout = layout;
@@ -675,8 +676,9 @@ const W_TYS: &[Ty] = &[
 fn generate_single(r: &mut Rng, tier: Tier) -> C16 {
     let big = r.chance(1, if tier == Tier::Thorough { 40 } else { 400 });
     let max_frames = if tier == Tier::Thorough && r.chance(1, 4) { 20 } else { 8 };
-    let nitems = if big { r.range(1, 2) } else { 1 + r.below(max_frames) } as usize;
-    let profile = r.below(4);
+    let marathon = !big && r.chance(1, 150);
+    let nitems = if big { r.range(1, 2) } else if marathon { r.range(257, 600) } else { 1 + r.below(max_frames) } as usize;
+    let profile = if marathon { 0 } else { r.below(4) };
     let mixed = r.chance(1, 2);
     let ty0 = *r.pick(W_TYS);
     let en_reject = r.chance(1, 3);
@@ -851,6 +853,15 @@ impl Property for P16 {
                     // and with whole-buffer accepts after the fault
                     let mut sink = vec![Step::Xfer(1); i];
                     sink.push(f);
+                    out.push(C16 { sink, ..base(items.clone()) });
+                }
+            }
+            // (d2) two faults in a row before every byte
+            for (f1, f2) in [(Step::Zero, Step::Zero), (Step::Err(ErrKind::WouldBlock), Step::Err(ErrKind::WouldBlock)), (Step::Zero, Step::Err(ErrKind::Other)), (Step::Err(ErrKind::Interrupted), Step::Zero)] {
+                for i in 0..=len {
+                    let mut sink = vec![Step::Xfer(1); i];
+                    sink.push(f1);
+                    sink.push(f2);
                     out.push(C16 { sink, ..base(items.clone()) });
                 }
             }
